@@ -16,6 +16,7 @@ import numpy as np
 from sim import boot
 from sim.boot import CLOCK
 from sim.util import SimAbort, cjson, dig
+from sim.world import poison_heap
 from catalog import api
 from catalog.ctx import FreshCtx
 
@@ -225,9 +226,14 @@ def repeat_ok(call, spec):
 ERRSTATE_LEAKS = []
 
 
+POISON = [None]     # byte pattern freed memory is filled with before every library call (None: fault off); differs between the isolated reference and the history
+
+
 def run_call(call):
     err0 = np.geterr()
     try:
+        if POISON[0] is not None:
+            poison_heap(POISON[0])
         return call.run(), None
     except SimAbort:
         raise
@@ -452,6 +458,8 @@ def gen_spec(rng, force=None):
 def generate(rng, prop, tier):
     d = rng.choice([2, 3, 3, 4])
     n = [rng.choice([2, 2, 3, 3, 4, 5]) for _ in range(d)]
+    if rng.random() < 0.12:
+        n[rng.randrange(d)] = 1            # a singleton mode
     K = rng.choice([1, 2, 2, 3, 4])
     clients = []
     pool = []
@@ -474,7 +482,7 @@ def generate(rng, prop, tier):
         else:
             clients[0] = [gen_spec(rng, force=fn) for _ in range(rng.randint(2, 4))] + clients[0][:2]
     return {'engine': NAME, 'n': n, 'clients': clients, 'sched_seed': rng.randrange(1 << 30),
-            'perturb_rate': rng.choice([0.0, 0.2, 0.5]), 'world_seed': rng.randrange(1 << 30)}
+            'perturb_rate': rng.choice([0.0, 0.2, 0.5]), 'world_seed': rng.randrange(1 << 30), 'poison': rng.random() < 0.5}
 
 
 def viol(oracle, detail):
@@ -513,6 +521,7 @@ def execute(sc):
         # ---- isolated references in the canonical world
         refs = {}
         probe_rng = 0
+        POISON[0] = 0x5A if sc.get('poison') else None
         for ci, script in enumerate(sc['clients']):
             for k, spec in enumerate(script):
                 key = cjson(spec)
@@ -550,6 +559,9 @@ def execute(sc):
         # ---- the interleaved, perturbed history
         np.random.seed(sc['world_seed'] % (1 << 31))
         CLOCK.reset()
+        if sc.get('poison'):
+            POISON[0] = 0xA5
+            stats['fault.uninitialised_memory_poisoned'] = 1
         s = Sched(sc, stats)
         SCHED[0] = s
         try:
@@ -598,6 +610,7 @@ def execute(sc):
     finally:
         sys.stdout = old_out
         SCHED[0] = None
+        POISON[0] = None
     sample = {'n': sc['n'], 'clients': [[(x['entry'], x['seed_mode']) for x in scr] for scr in sc['clients']],
               'yield_points': s.steps, 'switches_inside_calls': s.switch_inside, 'perturbations': s.perturbed}
     h = [[r for r in c.results] + sorted(c.results2.items()) + sorted(c.results_rep.items()) for c in s.clients]
